@@ -288,6 +288,48 @@ def _nontrivial(t1, t2, offset, max_diff):
     return False
 
 
+def large_cases(thorough):
+    """a few structured large instances (different rates, jitter, gaps,
+    disjoint ranges, epoch offsets); all stamps are multiples of 2^-10"""
+    q = 2.0**-10
+    cases = []
+    sizes = [(50, 60), (200, 201), (333, 100)] + (
+        [(1000, 1200), (5000, 4000)] if thorough else [])
+    for n1, n2 in sizes:
+        for epoch in (0.0, 1.5e9):
+            t1 = [epoch + 0.1015625 * k for k in range(n1)]
+            # second trajectory: other rate, deterministic jitter, a gap
+            t2, t = [], epoch + 0.03125
+            for k in range(n2):
+                t += 0.09375 + q * ((k * 37) % 13)
+                if k == n2 // 2:
+                    t += 3.0
+                t2.append(t)
+            for max_diff, offset in ((0.01, 0.0), (0.05, 0.0), (0.05, -0.03125),
+                                     (0.5, 1.0), (0.001, 0.0)):
+                cases.append({"t1": t1, "t2": t2, "slots1": list(range(n1)),
+                              "slots2": list(range(n2)), "offset": offset,
+                              "max_diff": max_diff, "mode": "quat+read"})
+    return cases
+
+
+def shard_large(arg):
+    acc = Acc()
+    for case in arg:
+        msgs, info = run_case(case)
+        acc.count("evaluations")
+        acc.count("transitions", 2)
+        acc.count("large_instances")
+        acc.outcome("large:" + info.get("outcome", "?"))
+        if msgs:
+            small = dict(case)
+            acc.violation("assoc-large", "n=(%d,%d) max_diff=%g offset=%g: %s"
+                          % (len(case["t1"]), len(case["t2"]),
+                             case["max_diff"], case["offset"],
+                             "; ".join(msgs[:3])), small, _cls(msgs))
+    return acc
+
+
 def run(ctx):
     nslots = ctx.pick(6, 8)
     masks = list(range(1, 2**nslots))
@@ -300,6 +342,8 @@ def run(ctx):
         pmap_acc(ctx, __name__, "shard_run",
                  [(small, s, ("se3", "quat", "se3+read", "quat+read"), ctx.tier)
                   for s in shard(range(1, 2**small), 16)]))
+    acc.merge(pmap_acc(ctx, __name__, "shard_large",
+                       [[c] for c in large_cases(ctx.thorough)]))
     # F3's published witness, literally (off-grid stamps)
     case = {
         "t1": [0.0, 0.004], "t2": [0.002, 10.0, 20.0], "slots1": [0, 1],
